@@ -27,7 +27,7 @@ type Case struct {
 	SrcOpts  gen.WriterOpts `json:"srcopts"` // options of the intermediate source file for WriteRowGroup paths
 }
 
-var paths = []string{"WriteRows", "WriteRows", "WriteRowGroup(buffer)", "WriteRowGroup(file)", "WriteRowGroup(file,same-config)", "CopyRows(file)", "Reset+WriteRows"}
+var paths = []string{"WriteRows", "WriteRows", "WriteRowGroup(buffer)", "WriteRowGroup(file)", "WriteRowGroup(file,same-config)", "CopyRows(file)", "Reset+WriteRows", "WriteRows+WriteRowGroup(multi)"}
 
 var leafIDs = []string{"bool", "int32", "int64", "int96", "float", "double", "bytes", "string", "flba:16", "flba:5", "flba:1", "uuid", "uint32", "uint64", "int8", "date", "dec64:18:4", "decflba:5:10:3", "decbytes:20:5"}
 
@@ -105,6 +105,34 @@ func produce(c Case, cols []ref.Column, rows []ref.V) ([]byte, error) {
 		w.Reset(&out)
 		if err := pq.ApplyOps(w, prows, c.Ops); err != nil {
 			return nil, err
+		}
+		if err := w.Close(); err != nil {
+			return nil, err
+		}
+		return out.Bytes(), nil
+	case "WriteRows+WriteRowGroup(multi)":
+		// rows pending in the writer (not flushed), then a multi row group holding the rest
+		half := len(prows) / 2
+		w := parquet.NewWriter(&out, dstOpts...)
+		if _, err := w.WriteRows(prows[:half]); err != nil {
+			return nil, err
+		}
+		var rgs []parquet.RowGroup
+		third := (len(prows) - half) / 3
+		for _, part := range [][]parquet.Row{prows[half : half+third], prows[half+third : half+2*third], prows[half+2*third:]} {
+			if len(part) == 0 {
+				continue
+			}
+			b := parquet.NewBuffer(schema)
+			if _, err := b.WriteRows(part); err != nil {
+				return nil, err
+			}
+			rgs = append(rgs, b)
+		}
+		if len(rgs) > 0 {
+			if _, err := w.WriteRowGroup(parquet.MultiRowGroup(rgs...)); err != nil {
+				return nil, err
+			}
 		}
 		if err := w.Close(); err != nil {
 			return nil, err
